@@ -22,6 +22,11 @@ RULE = ("per scenario script (handshake, write/read both ways, close) an "
         "error (or a TLSRemoteAlert for an alert really sent), the connection "
         "is closed, a mid-handshake failure leaves no resumable session and "
         "no completed handshake, later read/write behave as closed, orderly "
+        "Also: a second session on re-used connection objects, warning "
+        "alerts (not the end of the stream), the integration HTTPS "
+        "client on truncated and orderly ends, shut-down state of "
+        "failed endpoints (record layer reset, socket closed), cached "
+        "session after a fatal alert on a resumed connection.   "
         "close keeps the session resumable and reads return empty. "
         "distinct_nontrivial = distinct (script, side, op kind, phase, fault, "
         "outcome) cells.")
